@@ -266,15 +266,60 @@ Proof.
     + destruct (partition 37 r) as [[a1 a2] a3]. injection Ep as <- <- <-. discriminate.
 Qed.
 
-Lemma set_request_uri_inv uri s hi uh p q : set_request_uri ip_address uri true = Ok (DRequest s hi uh p q) ->
+(* ---- what urlsplit guarantees about a non-empty network location *)
+Lemma filter_self (f : Z -> bool) s : forallb f (filter f s) = true.
+Proof. induction s as [|x s IH]; [reflexivity|]. cbn [filter]. destruct (f x) eqn:E; [cbn [forallb]; rewrite E|]; exact IH. Qed.
+Lemma splitnetloc_nodelim s : forallb (fun c => negb (is_delim c)) (fst (splitnetloc s)) = true.
+Proof.
+  induction s as [|x s IH]; [reflexivity|]. cbn [splitnetloc]. destruct (is_delim x) eqn:E; [reflexivity|].
+  destruct (splitnetloc s) as [a b]. cbn [fst] in *. cbn [forallb]. rewrite E, IH. reflexivity.
+Qed.
+Lemma urlsplit_netloc_facts uri s netloc path query frag :
+  urlsplit ip_address uri = Ok (s, netloc, path, query, frag) -> netloc <> [] ->
+  all_ascii netloc = true /\ brackets_ok ip_address netloc /\
+  mem 47 netloc = false /\ mem 63 netloc = false /\ mem 35 netloc = false /\
+  mem 9 netloc = false /\ mem 10 netloc = false /\ mem 13 netloc = false.
+Proof.
+  intros H Hne. unfold urlsplit in H.
+  set (safe := fun c => negb (unsafe_byte c)) in *.
+  assert (V0 : forallb safe (remove_unsafe (lstrip_c0 uri)) = true) by apply filter_self.
+  set (u0 := remove_unsafe (lstrip_c0 uri)) in *.
+  assert (V1 : forallb safe (snd (split_scheme u0)) = true).
+  { unfold split_scheme. destruct (partition_forallb safe 58 u0 V0) as [_ I2]. destruct (partition 58 u0) as [[a h] b]. cbn [snd] in I2.
+    destruct (_ && _); [exact I2 | exact V0]. }
+  destruct (split_scheme u0) as [scheme url]. cbn [snd] in V1.
+  apply bind_ok in H as ([nl rest] & Hn & H).
+  destruct (partition 35 rest) as [[url1 hf] fragment]. destruct (partition 63 url1) as [[url2 hq] qy].
+  destruct (all_ascii nl) eqn:Ea; [|discriminate]. ok_inj H. injection H as <- <- <- <- <-.
+  destruct (startswith url [47; 47]); [|ok_inj Hn; injection Hn as <- <-; congruence].
+  pose proof (splitnetloc_forallb safe (skipn 2 url) (skipn_forallb safe 2 url V1)) as [I1 _].
+  pose proof (splitnetloc_nodelim (skipn 2 url)) as Hd.
+  destruct (splitnetloc (skipn 2 url)) as [a b]. cbn [fst] in I1, Hd.
+  destruct ((mem 91 a && negb (mem 93 a)) || (mem 93 a && negb (mem 91 a))) eqn:Ec; [discriminate|].
+  apply bind_ok in Hn as (x & Hx & Hn). ok_inj Hn. injection Hn as <- <-.
+  split; [exact Ea|]. split.
+  { unfold brackets_ok. rewrite Ec, Hx. reflexivity. }
+  repeat split; first [ apply (forallb_mem_false _ _ _ Hd); reflexivity | apply (forallb_mem_false _ _ _ I1); reflexivity ].
+Qed.
+
+(* ================================================================ 6.4, step by step: what every successful decomposition is.
+   For both values of set_uri_host. Uri-Path / Uri-Query are the percent-decoded segments of the path / query component; there is
+   no user name or password; the port was numeric and stays with the remote: the remote's hostinfo is the network location
+   verbatim, or — for a bracketed literal — the literal as ipaddress prints it, joined with the same port. *)
+Theorem decompose_spec uri flag s hi uh p q : set_request_uri ip_address uri flag = Ok (DRequest s hi uh p q) ->
   existsb (beqb s) coap_schemes = true /\
   exists netloc path query hostname port,
     urlsplit ip_address uri = Ok (s, netloc, path, query, []) /\ hostname_of netloc = Ok (Some hostname) /\
-    unquote_path path = Ok p /\ unquote_query query = Ok q /\ port_of netloc = Ok port /\
+    (let '(u, pw) := userinfo_of netloc in truthy u || truthy pw) = false /\
+    unquote_path path = Ok p /\ unquote_query query = Ok q /\
+    port_of netloc = Ok port /\ port_ok port /\ hostportsplit netloc = Ok (Some hostname, port) /\
     undecided_remote ip_address s netloc = Ok (s, hi) /\
+    (mem 91 netloc = false -> hi = netloc) /\
+    (mem 91 netloc = true -> exists n, (ip_address hostname = Ip6 n \/ ip_address hostname = Ip4 n) /\ hostportjoin n port = Ok hi) /\
     match uh with
-    | Some h => mem 91 netloc = false /\ exists h', unquote hostname = Ok h' /\ h = translate ascii_lowercase h'
-    | None => True
+    | Some h => flag = true /\ mem 91 netloc = false /\ is_ipv4_literal hostname = Ok false /\
+                exists h', unquote hostname = Ok h' /\ h = translate ascii_lowercase h'
+    | None => flag = false \/ mem 91 netloc = true \/ is_ipv4_literal hostname = Ok true
     end.
 Proof.
   unfold set_request_uri. intros H.
@@ -284,20 +329,92 @@ Proof.
   destruct scheme as [|s0 sr]; cbn [is_nil] in H; [discriminate|].
   destruct (existsb (beqb (s0 :: sr)) coap_schemes) eqn:Es; cbn [negb] in H; [|discriminate].
   destruct (hostname_of netloc) as [[hostname|]|e1] eqn:Eh; cbn [bind] in H; try discriminate.
-  destruct (userinfo_of netloc) as [username password].
-  destruct (truthy username || truthy password); [discriminate|].
+  destruct (userinfo_of netloc) as [username password] eqn:Eui.
+  destruct (truthy username || truthy password) eqn:Etr; [discriminate|].
   apply bind_ok in H as (uri_path & Hp & H). apply catch_unicode_ok in Hp.
   apply bind_ok in H as (uri_query & Hq & H). apply catch_unicode_ok in Hq.
   apply bind_ok in H as (port & Hport & H). apply catch_value_ok in Hport.
   apply bind_ok in H as ([rs rhi] & Hrem & H). apply catch_value_ok in Hrem.
   pose proof (undecided_remote_scheme _ _ _ _ Hrem) as Ers. cbn [fst] in Ers. subst rs. cbn [fst snd] in H.
+  assert (Hsp : hostportsplit netloc = Ok (Some hostname, port)) by (unfold hostportsplit; rewrite Eh, Hport; reflexivity).
+  assert (Hplain : mem 91 netloc = false -> rhi = netloc).
+  { intros N. unfold undecided_remote in Hrem. rewrite N in Hrem. ok_inj Hrem. congruence. }
+  assert (Hbr : mem 91 netloc = true -> exists n, (ip_address hostname = Ip6 n \/ ip_address hostname = Ip4 n) /\ hostportjoin n port = Ok rhi).
+  { intros N. unfold undecided_remote in Hrem. rewrite N, Hsp in Hrem. cbn [bind] in Hrem.
+    destruct (ip_address hostname) as [|n|n]; [discriminate| |]; apply bind_ok in Hrem as (j & Hj & Hrem); ok_inj Hrem;
+      injection Hrem as <-; exists n; auto. }
   apply bind_ok in H as (lit & Hlit & H).
-  destruct lit; cbn [andb negb] in H.
-  - apply Ok_inj in H. injection H as <- <- <- <- <-. split; [exact Es|]. exists netloc, path, query, hostname, port. repeat split; auto.
+  assert (Hcommon : forall uh0, (match uh0 with
+            | Some h => flag = true /\ mem 91 netloc = false /\ is_ipv4_literal hostname = Ok false /\
+                        exists h', unquote hostname = Ok h' /\ h = translate ascii_lowercase h'
+            | None => flag = false \/ mem 91 netloc = true \/ is_ipv4_literal hostname = Ok true end) ->
+          existsb (beqb (s0 :: sr)) coap_schemes = true /\
+          exists netloc0 path0 query0 hostname0 port0,
+            Ok (s0 :: sr, netloc, path, query, @nil Z) = Ok (s0 :: sr, netloc0, path0, query0, []) /\ hostname_of netloc0 = Ok (Some hostname0) /\
+            (let '(u, pw) := userinfo_of netloc0 in truthy u || truthy pw) = false /\
+            unquote_path path0 = Ok uri_path /\ unquote_query query0 = Ok uri_query /\
+            port_of netloc0 = Ok port0 /\ port_ok port0 /\ hostportsplit netloc0 = Ok (Some hostname0, port0) /\
+            undecided_remote ip_address (s0 :: sr) netloc0 = Ok (s0 :: sr, rhi) /\
+            (mem 91 netloc0 = false -> rhi = netloc0) /\
+            (mem 91 netloc0 = true -> exists n, (ip_address hostname0 = Ip6 n \/ ip_address hostname0 = Ip4 n) /\ hostportjoin n port0 = Ok rhi) /\
+            match uh0 with
+            | Some h => flag = true /\ mem 91 netloc0 = false /\ is_ipv4_literal hostname0 = Ok false /\
+                        exists h', unquote hostname0 = Ok h' /\ h = translate ascii_lowercase h'
+            | None => flag = false \/ mem 91 netloc0 = true \/ is_ipv4_literal hostname0 = Ok true end).
+  { intros uh0 Hu. split; [exact Es|]. exists netloc, path, query, hostname, port.
+    split; [reflexivity|]. split; [exact Eh|]. split; [rewrite Eui; exact Etr|]. split; [exact Hp|]. split; [exact Hq|].
+    split; [exact Hport|]. split; [exact (port_of_ok _ _ Hport)|]. split; [exact Hsp|]. split; [exact Hrem|]. split; [exact Hplain|]. split; [exact Hbr|]. exact Hu. }
+  destruct (flag && negb lit) eqn:Ef.
   - apply bind_ok in H as (h' & Hh & H). apply catch_unicode_ok in Hh. apply Ok_inj in H. injection H as <- <- <- <- <-.
-    split; [exact Es|]. exists netloc, path, query, hostname, port. repeat split; auto.
-    + destruct (mem 91 netloc); [discriminate | reflexivity].
-    + exists h'. split; [exact Hh | reflexivity].
+    apply andb_prop in Ef as [-> Hl]. destruct lit; [discriminate|].
+    apply (Hcommon (Some (translate ascii_lowercase h'))). split; [reflexivity|]. destruct (mem 91 netloc); [discriminate|]. split; [reflexivity|]. split; [exact Hlit|].
+    exists h'. split; [exact Hh | reflexivity].
+  - apply Ok_inj in H. injection H as <- <- <- <- <-. apply (Hcommon None).
+    destruct flag; [|left; reflexivity]. destruct lit; [|discriminate]. right.
+    destruct (mem 91 netloc); [left; reflexivity | right; exact Hlit].
+Qed.
+
+(* ================================================================ each class of unacceptable text IS rejected (clause by clause)
+   no scheme -> IncompleteUrlError; fragment, no host, user info, non-UTF-8 escapes in path / query / host, non-numeric or
+   out-of-range port, unusable bracketed literal, unbalanced brackets (urlsplit's ValueError) -> MalformedUrlError. *)
+Theorem rejects_each_class uri flag :
+  (urlsplit ip_address uri = Raise ValueError -> set_request_uri ip_address uri flag = Raise MalformedUrlError) /\
+  forall s netloc path query frag, urlsplit ip_address uri = Ok (s, netloc, path, query, frag) ->
+    (frag <> [] -> set_request_uri ip_address uri flag = Raise MalformedUrlError) /\
+    (frag = [] -> s = [] -> set_request_uri ip_address uri flag = Raise IncompleteUrlError) /\
+    (frag = [] -> existsb (beqb s) coap_schemes = true ->
+       (hostname_of netloc = Ok None -> set_request_uri ip_address uri flag = Raise MalformedUrlError) /\
+       (forall hn, hostname_of netloc = Ok (Some hn) ->
+          ((let '(u, pw) := userinfo_of netloc in truthy u || truthy pw) = true ->
+             set_request_uri ip_address uri flag = Raise MalformedUrlError) /\
+          ((let '(u, pw) := userinfo_of netloc in truthy u || truthy pw) = false ->
+             ((exists e, unquote_path path = Raise e) \/ (exists e, unquote_query query = Raise e) \/ (exists e, port_of netloc = Raise e) ->
+                set_request_uri ip_address uri flag = Raise MalformedUrlError) /\
+             (forall p q port, unquote_path path = Ok p -> unquote_query query = Ok q -> port_of netloc = Ok port ->
+                (undecided_remote ip_address s netloc = Raise ValueError -> set_request_uri ip_address uri flag = Raise MalformedUrlError) /\
+                (forall r, undecided_remote ip_address s netloc = Ok r -> flag = true -> mem 91 netloc = false ->
+                   is_ipv4_literal hn = Ok false -> (exists e, unquote hn = Raise e) ->
+                   set_request_uri ip_address uri flag = Raise MalformedUrlError))))).
+Proof.
+  split. { intros H. unfold set_request_uri. rewrite H. reflexivity. }
+  intros s netloc path query frag Eu. unfold set_request_uri. rewrite Eu. cbn [catch_value bind].
+  split. { intros Hf. destruct frag; [congruence | reflexivity]. }
+  split. { intros -> ->. reflexivity. }
+  intros -> Hs. cbn [is_nil negb]. destruct s as [|s0 sr]; [discriminate|]. cbn [is_nil]. rewrite Hs. cbn [negb].
+  split. { intros Hh. rewrite Hh. reflexivity. }
+  intros hn Hh. rewrite Hh. cbn [bind]. destruct (userinfo_of netloc) as [u pw].
+  split. { intros Ht. rewrite Ht. reflexivity. }
+  intros Ht. rewrite Ht. split.
+  - intros Hbad.
+    destruct (unquote_path path) as [p|e1] eqn:Ep; [|rewrite (unquote_path_raises _ _ Ep); reflexivity].
+    cbn [catch_unicode bind].
+    destruct (unquote_query query) as [q|e2] eqn:Eq; [|rewrite (unquote_query_raises _ _ Eq); reflexivity].
+    cbn [catch_unicode bind].
+    destruct (port_of netloc) as [port|e3] eqn:Eport; [|rewrite (port_of_raises _ _ Eport); reflexivity].
+    exfalso. destruct Hbad as [(e & He) | [(e & He) | (e & He)]]; discriminate.
+  - intros p q port Ep Eq Eport. rewrite Ep, Eq, Eport. cbn [catch_unicode catch_value bind]. split.
+    + intros Hr. rewrite Hr. reflexivity.
+    + intros r Hr -> N91 Hlit (e & He). rewrite Hr, N91, Hlit. cbn [catch_value bind andb negb]. rewrite He, (unquote_raises _ _ He). reflexivity.
 Qed.
 
 (* ================================================================ URI -> options -> URI -> options
@@ -307,9 +424,10 @@ Qed.
    * Uri-Host present (any characters, percent-escapes, reserved, non-ASCII): always, except for the NAMED RESIDUE
      "the decoded host is itself the text of an IP address / passes the IPv4-literal test" (e.g. coap://1%2E2.3.4/, coap://%3A%3A1/),
      where 6.5 legitimately composes a literal;
-   * no Uri-Host: for a bracketed IPv6 remote [t][:port] with t a text ipaddress prints, and for an IPv4 literal / name remote
-     host[:port] in canonical spelling, the decomposition is a fixed point. (Residue: a remote whose hostinfo keeps a
-     non-canonical spelling of the URI — leading zeros in the port, empty user info — and non-ASCII network locations.) *)
+   * no Uri-Host, network location without "[" (IPv4 literals in ANY spelling the URI had: leading zeros in the port, empty
+     user info, empty port): the decomposition is a fixed point — derived, no hypothesis on the shape of the remote;
+   * no Uri-Host, bracketed IPv6 remote [t][:port] with t a text ipaddress prints: fixed point.
+   (Residue: non-ASCII network locations, and what ipaddress prints — ip6_text_ok — is a hypothesis.) *)
 Theorem uri_options_uri uri s hi uh p q : valid_str uri = true ->
   set_request_uri ip_address uri true = Ok (DRequest s hi uh p q) ->
   existsb (beqb s) coap_schemes = true /\ p <> [[]] /\ q <> [[]] /\ forallb valid_str p = true /\ forallb valid_str q = true /\
@@ -321,41 +439,158 @@ Theorem uri_options_uri uri s hi uh p q : valid_str uri = true ->
          quote quote_for_host_chars h = Ok e /\
          set_request_uri ip_address u' true = Ok (DRequest s (e ++ port_text port) (Some h) p q))
   | None =>
+      exists u', get_request_uri ip_address (opts_of (DRequest s hi None p q)) = Ok u' /\
+      (forall netloc path query, urlsplit ip_address uri = Ok (s, netloc, path, query, []) -> mem 91 netloc = false ->
+         hi = netloc /\ set_request_uri ip_address u' true = Ok (DRequest s hi None p q)) /\
       (forall t p0, hi = 91 :: t ++ 93 :: port_text p0 -> ip6_text_ok ip_address t -> port_ok p0 ->
-         exists u', get_request_uri ip_address (opts_of (DRequest s hi None p q)) = Ok u' /\
-                    set_request_uri ip_address u' true = Ok (DRequest s hi None p q)) /\
-      (forall h0 p0, hi = h0 ++ port_text p0 -> regular_host h0 = true -> is_ipv4_literal h0 = Ok true -> port_ok p0 ->
-         exists u', get_request_uri ip_address (opts_of (DRequest s hi None p q)) = Ok u' /\
-                    set_request_uri ip_address u' true = Ok (DRequest s hi None p q))
+         set_request_uri ip_address u' true = Ok (DRequest s hi None p q))
   end.
 Proof.
-  intros Hv H. destruct (set_request_uri_inv _ _ _ _ _ _ H) as (Hs & netloc & path & query & hostname & port & Eu & Eh & Ep & Eq & Eport & Erem & Huh).
+  intros Hv H. destruct (decompose_spec _ _ _ _ _ _ _ H) as (Hs & netloc & path & query & hostname & port & Eu & Eh & Eui & Ep & Eq & Eport & Hpok & Hsp & Erem & Hplain & Hbr & Huh).
   destruct (urlsplit_shape _ _ _ _ _ _ Hv Eu) as (Vn & Vp & Vq & Hshape).
   destruct (hostname_of_valid _ _ Vn Eh) as (Vh & Hhne).
   assert (Hnl : netloc <> []). { intros ->. cbn in Eh. discriminate. }
   destruct (unquote_path_facts _ _ Vp (Hshape Hnl) Ep) as (Pd & Pv). destruct (unquote_query_facts _ _ Vq Eq) as (Qd & Qv).
   split; [exact Hs|]. split; [exact Pd|]. split; [exact Qd|]. split; [exact Pv|]. split; [exact Qv|].
   destruct uh as [h|].
-  - destruct Huh as (N91 & h' & Hh' & ->). destruct (unquote_facts _ _ Vh Hh') as (Vh' & Hne').
+  - destruct Huh as (_ & N91 & _ & h' & Hh' & ->). destruct (unquote_facts _ _ Vh Hh') as (Vh' & Hne').
     assert (Hn : translate ascii_lowercase h' <> []). { destruct h' as [|c r]; [exfalso; apply Hhne; apply Hne'; reflexivity | discriminate]. }
     assert (Vt : valid_str (translate ascii_lowercase h') = true).
     { unfold valid_str, translate. rewrite forallb_forall. intros x Hin. apply in_map_iff in Hin as (c & <- & Hin).
       unfold valid_str in Vh'. rewrite forallb_forall in Vh'. specialize (Vh' c Hin). rewrite lookup_lower.
       unfold lower_c, is_upper, scalar, is_surrogate in *. destruct ((65 <=? c) && (c <=? 90)) eqn:E; lia. }
     split; [exact Hn|]. split; [exact Vt|]. split; [apply translate_no_upper|].
-    intros Hip Hlit.
-    assert (Ehi : hi = netloc). { unfold undecided_remote in Erem. rewrite N91 in Erem. ok_inj Erem. congruence. }
-    subst hi.
-    assert (Hsp : hostportsplit netloc = Ok (Some hostname, port)) by (unfold hostportsplit; rewrite Eh, Eport; reflexivity).
+    intros Hip Hlit. rewrite (Hplain N91) in *.
     destruct (options_uri_options_name ip_address (opts_of (DRequest s netloc (Some (translate ascii_lowercase h')) p q)) _ _ _
-                Hs eq_refl eq_refl eq_refl Hn Vt (translate_no_upper h') Hip Hlit Hsp (port_of_ok _ _ Eport) Pd Qd Pv Qv) as (u' & e & G & Q & D).
+                Hs eq_refl eq_refl eq_refl Hn Vt (translate_no_upper h') Hip Hlit Hsp Hpok Pd Qd Pv Qv) as (u' & e & G & Q & D).
     exists u', e, (Some hostname), port. auto.
-  - split.
+  - destruct (compose_path_total _ Pv) as (ptext & Ept). destruct (compose_query_total _ Qv) as (qtext & Eqt).
+    exists (urlunsplit s hi ptext qtext). split.
+    { unfold get_request_uri, compose_netloc, opts_of. cbn. rewrite Eqt, Ept. reflexivity. }
+    split.
+    + intros netloc0 path0 query0 Eu0 N91. rewrite Eu in Eu0. apply Ok_inj in Eu0. injection Eu0 as <- <- <-.
+      pose proof (Hplain N91) as Ehi. split; [exact Ehi|]. subst hi.
+      destruct (urlsplit_netloc_facts _ _ _ _ _ _ Eu Hnl) as (Fa & Fb & F47 & F63 & F35 & F9 & F10 & F13).
+      assert (Hl : is_ipv4_literal hostname = Ok true) by (destruct Huh as [? | [? | ?]]; [discriminate | congruence | assumption]).
+      eapply (decompose_composed ip_address s netloc hostname port netloc true); try eassumption.
+      * rewrite N91. exact Hl.
+      * reflexivity.
     + intros t p0 -> Hok Hp0.
       destruct (options_uri_options_ip6 ip_address (opts_of (DRequest s (91 :: t ++ 93 :: port_text p0) None p q)) t p0
-                  Hs eq_refl eq_refl eq_refl eq_refl Hok Hp0 Hp0 Pd Qd Pv Qv) as (u' & G & D). exists u'. auto.
-    + intros h0 p0 -> Hreg Hlit Hp0.
-      destruct (options_uri_options_hostinfo ip_address (opts_of (DRequest s (h0 ++ port_text p0) None p q)) h0 p0 true
-                  Hs eq_refl eq_refl eq_refl eq_refl eq_refl Hreg Hlit Hp0 Pd Qd Pv Qv) as (u' & G & D). exists u'. auto.
+                  Hs eq_refl eq_refl eq_refl eq_refl Hok Hp0 Hp0 Pd Qd Pv Qv) as (u' & G & D).
+      unfold get_request_uri, compose_netloc, opts_of in G. cbn in G. rewrite Eqt, Ept in G. cbn in G. apply Ok_inj in G. rewrite G. exact D.
 Qed.
 End Inversion.
+
+(* ================================================================ host:port strings, the other direction: split, then join, then split *)
+Lemma partition_fst_nomem c s : mem c (fst (fst (partition c s))) = false.
+Proof.
+  induction s as [|x s IH]; [reflexivity|]. cbn [partition]. destruct (x =? c) eqn:E; [reflexivity|].
+  destruct (partition c s) as [[a h] b]. cbn [fst] in *. rewrite mem_cons, IH. replace (c =? x) with false by lia. reflexivity.
+Qed.
+Lemma forallb_neq_mem d s : forallb (fun c => negb (c =? d)) s = true <-> mem d s = false.
+Proof.
+  induction s as [|x s IH]; [split; reflexivity|]. cbn [forallb]. rewrite mem_cons. split.
+  - intros H. apply andb_prop in H as [H1 H2]. apply IH in H2. rewrite H2. lia.
+  - intros H. apply orb_false_elim in H as [H1 H2]. apply IH in H2. rewrite H2. lia.
+Qed.
+Lemma mem_lower_ascii d a : is_lower d = false -> is_upper d = false -> mem d (lower_ascii a) = mem d a.
+Proof.
+  intros Hl Hu. induction a as [|c a IH]; [reflexivity|]. cbn [lower_ascii map]. fold (lower_ascii a). rewrite !mem_cons, IH. f_equal.
+  unfold lower_c, is_lower, is_upper in *. destruct ((65 <=? c) && (c <=? 90)) eqn:E; lia.
+Qed.
+Lemma lower_ascii_idem a : lower_ascii (lower_ascii a) = lower_ascii a.
+Proof.
+  induction a as [|c a IH]; [reflexivity|]. cbn [lower_ascii map]. fold (lower_ascii a). fold (lower_ascii (lower_ascii a)). rewrite IH. f_equal.
+  unfold lower_c, is_upper. destruct ((65 <=? c) && (c <=? 90)) eqn:E; [|rewrite E; reflexivity].
+  replace ((65 <=? c + 32) && (c + 32 <=? 90)) with false by lia. reflexivity.
+Qed.
+Lemma all_ascii_lower a : all_ascii a = true -> all_ascii (lower_ascii a) = true.
+Proof.
+  unfold all_ascii. induction a as [|c a IH]; intros H; [reflexivity|]. cbn [forallb] in H. apply andb_prop in H as [Hc Ha].
+  cbn [lower_ascii map forallb]. fold (lower_ascii a). rewrite IH by exact Ha. unfold is_ascii, lower_c, is_upper in *.
+  destruct ((65 <=? c) && (c <=? 90)) eqn:E; lia.
+Qed.
+
+Lemma partition_notfound_rest c l : forall a z, partition c l = (a, false, z) -> z = [].
+Proof.
+  induction l as [|x l IH]; intros a z E; cbn [partition] in E. { injection E as _ <-. reflexivity. }
+  destruct (x =? c); [discriminate|]. destruct (partition c l) as [[a1 h1] b1] eqn:E2. injection E as _ -> <-. eapply IH. reflexivity.
+Qed.
+
+(* whatever hostportsplit returns as host (without "[" inside, which only junk like "[a[b]" produces) can be joined with the
+   returned port into a string that splits into exactly the same pair: the normal form of a host:port string *)
+Theorem hostport_split_join j h p : hostportsplit j = Ok (Some h, p) -> mem 64 j = false -> mem 91 h = false ->
+  exists j', hostportjoin h p = Ok j' /\ hostportsplit j' = Ok (Some h, p).
+Proof.
+  unfold hostportsplit. intros H N64 N91.
+  apply bind_ok in H as (ho & Hh & H). apply bind_ok in H as (po & Hp & H). apply Ok_inj in H. injection H as E1 E2. subst ho po.
+  pose proof (port_of_ok _ _ Hp) as Hpok.
+  (* shape of the raw host part *)
+  set (raw := fst (hostinfo_of j)) in *.
+  assert (Hraw : (mem 58 raw = false \/ mem 93 raw = false) /\ mem 64 raw = false).
+  { unfold raw, hostinfo_of. apply forallb_neq_mem in N64.
+    pose proof (rpartition_forallb _ 64 j N64) as R. destruct (rpartition 64 j) as [[a0 b0] hostinfo]. cbn [snd] in R.
+    destruct (partition_forallb _ 91 hostinfo R) as [_ B]. destruct (partition_forallb _ 58 hostinfo R) as [C _].
+    pose proof (partition_fst_nomem 58 hostinfo) as M58.
+    destruct (partition 91 hostinfo) as [[a1 ob] bracketed]. cbn [snd] in B. destruct ob.
+    - destruct (partition_forallb _ 93 bracketed B) as [D _]. pose proof (partition_fst_nomem 93 bracketed) as M93.
+      destruct (partition 93 bracketed) as [[hn x] pt]. cbn [fst] in D, M93. destruct (partition 58 pt) as [[y1 y2] y3]. cbn [fst].
+      split; [right; exact M93 | apply forallb_neq_mem; exact D].
+    - destruct (partition 58 hostinfo) as [[hn x] pt]. cbn [fst] in *. split; [left; exact M58 | apply forallb_neq_mem; exact C]. }
+  destruct Hraw as (Hcolon & R64).
+  unfold hostname_of in Hh. fold raw in Hh. destruct (is_nil raw) eqn:En; [discriminate|].
+  pose proof (partition_fst_nomem 37 raw) as M37.
+  assert (Hpieces : forall d, mem d raw = false -> mem d (fst (fst (partition 37 raw))) = false /\ mem d (snd (partition 37 raw)) = false).
+  { intros d Hd. apply forallb_neq_mem in Hd. destruct (partition_forallb _ 37 raw Hd) as [A B]. split; apply forallb_neq_mem; assumption. }
+  destruct (partition 37 raw) as [[a pc] z] eqn:Epart. cbn [fst snd] in *.
+  destruct (all_ascii a) eqn:Ea; [|discriminate]. ok_inj Hh. injection Hh as <-.
+  set (h := lower_ascii a ++ (if pc then [37] else []) ++ z) in *.
+  assert (Hmem : forall d, is_lower d = false -> is_upper d = false -> d <> 37 -> mem d raw = false -> mem d h = false).
+  { intros d L U D Hd. destruct (Hpieces d Hd) as [A B]. unfold h. rewrite !mem_app, mem_lower_ascii, A, B by assumption.
+    destruct pc; cbn [mem existsb]; [replace (d =? 37) with false by lia|]; reflexivity. }
+  assert (Hpart : partition 37 h = (lower_ascii a, pc, z)).
+  { unfold h. assert (M : mem 37 (lower_ascii a) = false) by (rewrite mem_lower_ascii by reflexivity; exact M37).
+    destruct pc; cbn [app].
+    - apply partition_found. exact M.
+    - (* no "%" at all: z is empty *)
+      assert (z = []) by (eapply partition_notfound_rest; exact Epart).
+      subst z. rewrite app_nil_r. apply partition_notfound. exact M. }
+  assert (Hlow : lower_before_pct h = h) by (unfold lower_before_pct; rewrite Hpart, lower_ascii_idem; reflexivity).
+  assert (Hap : host_ascii_part h = true) by (unfold host_ascii_part; rewrite Hpart; cbn [fst]; apply all_ascii_lower; exact Ea).
+  assert (Hne : h <> []). { unfold h. destruct raw as [|c r]; [discriminate|]. cbn [partition] in Epart. destruct (c =? 37).
+    - injection Epart as <- <- <-. discriminate.
+    - destruct (partition 37 r) as [[a1 h1] b1]. injection Epart as <- <- <-. discriminate. }
+  assert (H64 : mem 64 h = false) by (apply Hmem; auto; lia).
+  destruct (mem 58 h) eqn:E58.
+  - (* contains ":" : it came out of brackets, and goes back into brackets *)
+    assert (H93 : mem 93 h = false).
+    { destruct Hcolon as [C | C]; [|apply Hmem; auto; lia]. rewrite (Hmem 58) in E58 by (auto; lia). discriminate. }
+    exists (91 :: h ++ 93 :: port_text p). split; [apply hostportjoin_bare6; assumption|].
+    rewrite <- Hlow at 2. apply hostportsplit_of_hostinfo; auto. apply hostinfo_of_bracketed; auto.
+  - exists (h ++ port_text p). split; [apply hostportjoin_plain; exact E58|].
+    rewrite <- Hlow at 2. apply hostportsplit_of_hostinfo; auto. apply hostinfo_of_plain; auto.
+Qed.
+
+(* ================================================================ distinct resources never collapse, remotes without Uri-Host:
+   two option sets whose authority is the remote's  host[:port]  (reg-name or IPv4 literal) and that compose to the same URI have
+   the same scheme, hostinfo, Uri-Path and Uri-Query. (For option sets with Uri-Host see compose_injective; a mixed pair that
+   composes to one URI decomposes to one and the same result, i.e. denotes the same authority, by options_uri_options_name /
+   _hostinfo / _ip6, set_request_uri being a function.) *)
+Theorem compose_injective_hostinfo ip (m1 m2 : request_opts) h1 p1 l1 h2 p2 l2 u :
+  (forall (m : request_opts) h p l, m = m1 /\ h = h1 /\ p = p1 /\ l = l1 \/ m = m2 /\ h = h2 /\ p = p2 /\ l = l2 ->
+     existsb (beqb (r_scheme m)) coap_schemes = true /\ o_proxy_uri m = None /\ o_proxy_scheme m = None /\
+     o_uri_host m = None /\ o_uri_port m = None /\ r_hostinfo m = h ++ port_text p /\ regular_host h = true /\
+     is_ipv4_literal h = Ok l /\ port_ok p /\ o_uri_path m <> [[]] /\ o_uri_query m <> [[]] /\
+     forallb valid_str (o_uri_path m) = true /\ forallb valid_str (o_uri_query m) = true) ->
+  get_request_uri ip m1 = Ok u -> get_request_uri ip m2 = Ok u ->
+  r_scheme m1 = r_scheme m2 /\ r_hostinfo m1 = r_hostinfo m2 /\ o_uri_path m1 = o_uri_path m2 /\ o_uri_query m1 = o_uri_query m2.
+Proof.
+  intros Hnd U1 U2.
+  destruct (Hnd m1 h1 p1 l1 (or_introl (conj eq_refl (conj eq_refl (conj eq_refl eq_refl))))) as (A1 & A2 & A3 & A4 & A5 & A6 & A7 & A8 & A9 & A10 & A11 & A12 & A13).
+  destruct (Hnd m2 h2 p2 l2 (or_intror (conj eq_refl (conj eq_refl (conj eq_refl eq_refl))))) as (B1 & B2 & B3 & B4 & B5 & B6 & B7 & B8 & B9 & B10 & B11 & B12 & B13).
+  destruct (options_uri_options_hostinfo ip m1 h1 p1 l1 A1 A2 A3 A4 A5 A6 A7 A8 A9 A10 A11 A12 A13) as (u1 & G1 & D1).
+  destruct (options_uri_options_hostinfo ip m2 h2 p2 l2 B1 B2 B3 B4 B5 B6 B7 B8 B9 B10 B11 B12 B13) as (u2 & G2 & D2).
+  rewrite U1 in G1. rewrite U2 in G2. apply Ok_inj in G1. apply Ok_inj in G2. subst u1 u2.
+  rewrite D1 in D2. apply Ok_inj in D2. injection D2 as Es Ehi _ Ep Eq. auto.
+Qed.
